@@ -27,10 +27,11 @@ var documentedPanics = map[string]struct {
 func PanicInventory(cgEntries []string, dynEntries []DynEntry, universe []atom, domainText string, opts ...string) Rule {
 	return func(p *core.Prog, r *core.Report) {
 		cg := core.BuildCallGraph(p)
-		reach, missing := cg.Reachable(cgEntries...)
+		_, missing := cg.Reachable(cgEntries...)
 		for _, m := range missing {
 			r.Unk("PANIC-INVENTORY", "entry:"+m, "-", "entry point not found")
 		}
+		reach := reachableRefined(p, cg, cgEntries)
 		r.Count("reachable_functions", len(reach))
 		minReach := 60
 		for _, o := range opts {
@@ -412,4 +413,68 @@ func comparableSide(v ssa.Value) bool {
 		return true
 	}
 	return false
+}
+
+// reachableRefined: call-graph reachability where an interface call on a child validator taken from a
+// slot only dispatches to the concrete types the parent's constructor puts in that slot (SLOT-INIT).
+func reachableRefined(p *core.Prog, cg *core.CallGraph, entries []string) map[*ssa.Function]bool {
+	na := newNilAn(p)
+	seen := map[*ssa.Function]bool{}
+	var work []*ssa.Function
+	for _, e := range entries {
+		if f := p.Func(e); f != nil && !seen[f] {
+			seen[f] = true
+			work = append(work, f)
+		}
+	}
+	add := func(g *ssa.Function) {
+		if g != nil && p.InSubject(g) && !seen[g] {
+			seen[g] = true
+			work = append(work, g)
+		}
+	}
+	for len(work) > 0 {
+		f := work[len(work)-1]
+		work = work[:len(work)-1]
+		// static edges, closures and function values from the CHA graph, minus its by-name interface edges
+		core.EachInstr(f, func(i ssa.Instruction) {
+			switch x := i.(type) {
+			case *ssa.MakeClosure:
+				if g, ok := x.Fn.(*ssa.Function); ok {
+					add(g)
+				}
+			case ssa.CallInstruction:
+				cc := x.Common()
+				if cc.IsInvoke() {
+					for _, g := range na.implsFor(cc) {
+						add(g)
+					}
+					return
+				}
+				if g := cc.StaticCallee(); g != nil {
+					add(g)
+					return
+				}
+				if _, isB := cc.Value.(*ssa.Builtin); isB {
+					return
+				}
+				// dynamic call of a function value: fall back to the CHA targets
+				for _, g := range cg.Out[f] {
+					if g.Parent() != nil || g.Signature.Recv() == nil {
+						if types.Identical(g.Signature.Params(), cc.Signature().Params()) && types.Identical(g.Signature.Results(), cc.Signature().Results()) {
+							add(g)
+						}
+					}
+				}
+			}
+			for _, op := range i.Operands(nil) {
+				if op != nil && *op != nil {
+					if g, ok := (*op).(*ssa.Function); ok {
+						add(g)
+					}
+				}
+			}
+		})
+	}
+	return seen
 }
